@@ -66,6 +66,13 @@ AllStmts ==
   \cup {St(EBin("via", EList(<<N1, ENum(2)>>), ELam(<<Req(n)>>, EId(n))), "") : n \in Vars}
   \cup {St(Plus(EId(n), N1), "") : n \in Vars}
   \cup {St(EDo(<<EAsg(m, EId(n))>>, ENum(0)), "") : n \in Vars, m \in Vars}
+  \cup {St(EAsg(n, ECall(EId("max"), <<EAsg(m, ENum(3)), N1>>)), "") : n \in Vars, m \in Vars}   \* n = max(m = 3, 1), incl. n = m: the call is the whole right-hand side
+  \cup {St(EAsg(n, ECall(ELam(<<Req("x")>>, EId("x")), <<EAsg(m, ENum(3))>>)), "") : n \in Vars, m \in Vars}
+  \cup {St(EDo(<<>>, EAsg(n, ENum(9))), "") : n \in Vars}                                    \* do { return n = 9 }: a block without statements
+  \cup {St(EAsg(n, EDo(<<>>, EAsg(m, ENum(8)))), "") : n \in Vars, m \in Vars}               \* n = do { return m = 8 }
+  \cup {St(EAsg(n, EDo(<<EAsg(m, ENum(6))>>, EAsg(m, Plus(EId(m), N1)))), "") : n \in Vars, m \in Vars}
+  \cup {St(EDo(<<>>, EDo(<<>>, EAsg(n, ENum(4)))), "") : n \in Vars}
+  \cup {St(ECall(ELam(<<>>, EDo(<<>>, EAsg(n, ENum(4)))), <<>>), "") : n \in Vars}            \* a block as the whole function body
 Stmts == CASE Alphabet = "fn" -> FnStmts [] Alphabet = "data" -> DataStmts [] OTHER -> AllStmts
 
 Init == SInit
